@@ -241,7 +241,7 @@ def cmdseq_gen(rng: random.Random) -> dict:
     names: set[str] = set()
     for _ in range(rng.choice([0, 1, 1, 2, 3])):
         name = s(128)
-        if names and rng.random() < 0.25:
+        if names and rng.random() < 0.5:
             # the file is a dict keyed by the exact name: names that differ only in case / surrounding blanks are different sequences
             name = collide(rng, rng.choice(sorted(names)))[:128]
         if name in names:
